@@ -22,6 +22,24 @@ CHECKS = {
  "C18": dict(cat="exploration", tech="Hypothesis construction of (valid script, insertion point, offending token, layout, tail) with reference-confirmed class membership; oracle: exact (line, byte column, length) computed from the assembled text, metamorphic tail replacement; differential lower bound from the reference's first offending token",
    text="Randomised exploration of error positions over ten offending-token classes, layouts with comments/multi-byte text/CRLF and tails; exact expected positions computed by the harness.",
    note="Trusted: reference recogniser confirms the inserted token is the first offending token of its class."),
+ "C06": dict(cat="exploration", tech="Hypothesis generation of filter definitions and edit histories; oracles: parser + independent strict validator, require coverage walk, metamorphic skeleton invariance under value substitution, string-literal multiset",
+   text="Randomised exploration of factory output over condition/action kinds x hostile value alphabet and over edit histories, five independent oracles per case.",
+   note="Trusted: vf/refsieve strict mode, frozen extension table; generator respects the factory API's implicit preconditions (DESIGN 2.4)."),
+ "C11": dict(cat="exploration", tech="Hypothesis edit histories -> render -> parse -> load round trip (model of names/flags/descriptions/requires, tree equality, fixed point)",
+   text="Randomised exploration of save/load round trips over reachable filter-set states, names/descriptions incl. non-ASCII and custom marker prefixes.",
+   note="Trusted: harness tree walker; names/descriptions restricted as in the quantifier."),
+ "C12": dict(cat="exploration", tech="model-based stateful testing (Hypothesis RuleBasedStateMachine) + exhaustive enumeration of short histories against a reference ordered-unique-list model",
+   text="All histories up to length 3/4 over 60 operations enumerated exhaustively, longer ones sampled by a rule-based state machine; reference model compared after every step.",
+   note="Trusted: reference list model vf/fsmodel.py; return values the property leaves open are not asserted."),
+ "C13": dict(cat="exploration", tech="stateful testing (Hypothesis RuleBasedStateMachine) with differential oracle: same step executed in a pristine forked interpreter image",
+   text="Randomised histories of parses on reused/fresh parsers interleaved with FiltersSet operations; each observation compared with a pristine process.",
+   note="Trusted: fork-server vf/pristine.py gives the 'just imported' state."),
+ "C19": dict(cat="exploration", tech="Hypothesis generation of filter definitions; round-trip oracle (supplied == read back) on original, reloaded and disabled sets",
+   text="Randomised exploration of read-back identity over the supported condition/action forms and a value alphabet with commas, brackets, spaces, non-ASCII.",
+   note="Definitions restricted to the forms C19 lists."),
+ "C20": dict(cat="exploration", tech="Hypothesis generation of args_definitions + per-definition enumeration of uses and single-edit invalid uses vs. reference recogniser interpreting the same definition; round trip",
+   text="Randomised definitions, bounded-exhaustive uses per definition; verdict, argument recording and print/parse round trip checked.",
+   note="Trusted: harness translation of a definition into a reference table entry (vf/props/c20.py:to_entry)."),
 }
 
 NOT_YET = {
